@@ -169,7 +169,7 @@ def conforming(rng, sh, extras=True):
     if k == "tuple":
         return "[ " + " ".join(conforming(rng, s) for s in sh[1]) + " ]"
     if k == "map":
-        ks = sorted(set(rng.choice(["a", "b", "k", "é"]) for _ in range(rng.randrange(0, 4))), key=lambda s: s.encode())
+        ks = sorted(set(rng.choice(["a", "b", "k", "é", "2024", "0", "-7", "1.5", "true", "null", ""]) for _ in range(rng.randrange(0, 4))), key=lambda s: s.encode())
         return "{ " + " ".join(G.enc_str(x) + " " + conforming(rng, sh[1]) for x in ks) + " }" if ks else "{ }"
     if k == "struct":
         if rng.random() < 0.15:
